@@ -1,7 +1,10 @@
-\* Reference configuration (the check generates its own: see QP_CONFIGS in harness/checks/c08.py).
+\* Reference configuration (the check generates its own: see QP_CONFIGS / QP_SEARCH in harness/checks/c08.py).
 \* Every circuit of 1..4 operations on 3 qudits, gates of arity 1-3, barriers on every qudit set, block sizes 2 and 3.
 \* With BarrierFix = FALSE (the code as it is) the verdicts of the runs are printed (<<"L2VERDICT", ...>>);
 \* with BarrierFix = TRUE add ResOK to INVARIANTS.
+\* Directed search for circuits in which the transitive half of the blocked-qudit bookkeeping decides:
+\*   NQ = 6, MaxOps = 5, BlockSizes = {3}, GateArities = {2, 3}, BarrierMode = "none", Slack = 2, EmitMechs = {"trans"},
+\*   CONSTRAINT DirectedTrans
 SPECIFICATION Spec
 CONSTANTS
   NQ = 3
@@ -13,5 +16,8 @@ CONSTANTS
   BarrierFix = FALSE
   PrefixMode = "none"
   EmitMod = 0
+  MinFinal = 1
+  EmitMechs = {}
+  Slack = 0
 INVARIANTS AssertsHold Shape
 CHECK_DEADLOCK FALSE
